@@ -121,25 +121,25 @@ func makeScript(s *Stream, variant int) []FOp {
 // FCase is the replayable description of a C18 execution.
 type FCase struct {
 	W, B     int
-	Contract bool     `json:"contract_abiding_writer"`
-	Variant  int      `json:"variant"`
-	Src      string   `json:"stream_source"`
+	Contract bool   `json:"contract_abiding_writer"`
+	Variant  int    `json:"variant"`
+	Src      string `json:"stream_source"`
 	Blocks   []lz.Block
 	Choices  []int    `json:"choices"`
 	Log      []string `json:"log,omitempty"`
 }
 
 type faultRun struct {
-	st   *engine.Stats
-	col  *engine.Collector
-	prop string
-	W, B int
-	s    *Stream
-	ops  []FOp
-	var_ int
-	log  []string
-	keep bool
-	c    *engine.Chooser
+	st       *engine.Stats
+	col      *engine.Collector
+	prop     string
+	W, B     int
+	s        *Stream
+	ops      []FOp
+	var_     int
+	log      []string
+	keep     bool
+	c        *engine.Chooser
 	contract bool
 	outcomes map[uint64]struct{}
 }
